@@ -203,6 +203,9 @@ func callTargetName(cc *ssa.CallCommon) string {
 		return f.String()
 	}
 	if b, ok := cc.Value.(*ssa.Builtin); ok {
+		if b.Name() == "append" && len(cc.Args) > 0 {
+			return "builtin.append<" + types.TypeString(cc.Args[0].Type(), func(*types.Package) string { return "" }) + ">"
+		}
 		return "builtin." + b.Name()
 	}
 	return "dynamic:" + describeValue(cc.Value)
@@ -235,8 +238,19 @@ func describeValue(v ssa.Value) string {
 	case *ssa.FreeVar:
 		return "var " + x.Name()
 	case *ssa.Phi:
-		return "phi " + x.Comment
+		return "carried<" + types.TypeString(x.Type(), func(*types.Package) string { return "" }) + ">"
 	case *ssa.Extract:
+		if sel, ok := x.Tuple.(*ssa.Select); ok && x.Index >= 2 {
+			k := 0
+			for _, st := range sel.States {
+				if st.Dir == types.RecvOnly {
+					if k == x.Index-2 {
+						return "recv " + describeValue(st.Chan)
+					}
+					k++
+				}
+			}
+		}
 		return "extract"
 	}
 	return fmt.Sprintf("%T", v)
